@@ -129,6 +129,14 @@ theorem varIndices_partition (bs : List Bnd) (j : Nat) (b : Bnd) (h : bs[j]? = s
   rw [hb, hi]
   cases hbb : isBoolB b <;> simp [hbb, ← hiff]
 
+/-- a CONSTANT column — bounds (0,0) or (1,1), as `assume()` leaves them or as the support column is declared — is an integer
+    column, not a boolean one: "boolean" means the bounds are exactly (0,1), not that the values lie in {0,1} -/
+theorem const_column_is_integer (bs : List Bnd) (j : Nat) (b : Bnd) (h : bs[j]? = some b) (hc : b.lo = b.hi) :
+    j ∈ intIdx bs ∧ ¬ j ∈ boolIdx bs := by
+  have hp := varIndices_partition bs j b h
+  have hnb : ¬ (b.lo = 0 ∧ b.hi = 1) := by intro hx; omega
+  exact ⟨hp.2.1.2 hnb, fun hm => hnb (hp.1.1 hm)⟩
+
 /-- indices beyond the columns are in neither set -/
 theorem varIndices_range (bs : List Bnd) (j : Nat) (h : j ∈ boolIdx bs ∨ j ∈ intIdx bs) : j < bs.length := by
   rcases h with h | h
